@@ -766,3 +766,46 @@ func WriteUpdateLeakWindow(b *Bucket, key string, expArg uint32) (WindowResult, 
 	}
 	return res, ""
 }
+
+// WriteUpdateTombstoneWindow: WriteUpdateWithXattrs whose callback turns a live document into a tombstone (keeping
+// the xattr list _x) while a rival commits inside its read-write window. Whatever the rival did - another body, an
+// xattr write, or a deletion of its own - the call must come back as in some one-at-a-time order: it re-reads, is
+// shown the rival's version and ends with the key deleted and its own token last in _x; it must not give up with
+// an error no sequential order produces.
+func WriteUpdateTombstoneWindow(b *Bucket, key, rival string) (WindowResult, string) {
+	c0, c1 := b.Colls[0], b.Colls[len(b.Colls)-1]
+	res := WindowResult{Loop: "WriteUpdateWithXattrs(tombstone)", Rival: rival, Pre: "live"}
+	if err := prepare(c0, key, "live"); err != nil {
+		return res, "setup: " + err.Error()
+	}
+	var rivalErr error
+	_, err := c0.WriteUpdateWithXattrs(ctxBG, key, []string{"_x"}, 0, nil, &sgbucket.MutateInOptions{},
+		func(doc []byte, xattrs map[string][]byte, cas uint64) (sgbucket.UpdatedDoc, error) {
+			res.Calls++
+			res.Saw = append(res.Saw, string(doc)+"|"+string(xattrs["_x"]))
+			if res.Calls == 1 {
+				rivalErr = doRival(c1, key, rival, "R")
+			}
+			return sgbucket.UpdatedDoc{IsTombstone: true, Xattrs: map[string][]byte{"_x": []byte(appendTokList(string(xattrs["_x"]), "W"))}}, nil
+		})
+	res.Err = kv.ErrClass(err)
+	res.Final = kv.ReadBack(c0, key)
+	if rivalErr != nil {
+		return res, "rival write failed: " + rivalErr.Error()
+	}
+	if err != nil {
+		return res, fmt.Sprintf("WriteUpdateWithXattrs (callback deletes the document) failed with %s (%v) after a rival %s committed inside its read-write window; it must re-read and try again", res.Err, err, rival)
+	}
+	if res.Calls < 2 {
+		return res, fmt.Sprintf("a rival %s committed between the read and the write of WriteUpdateWithXattrs but the callback was not re-invoked (calls=%d)", rival, res.Calls)
+	}
+	if res.Final.RawErr == "" {
+		return res, "the callback asked for a tombstone, yet the key still has a body"
+	}
+	var l []any
+	_ = json.Unmarshal([]byte(res.Final.GX["_x"]), &l)
+	if len(l) == 0 || l[len(l)-1] != "W" {
+		return res, fmt.Sprintf("the update's own xattr effect is missing from the tombstone: _x=%s", res.Final.GX["_x"])
+	}
+	return res, ""
+}
